@@ -813,7 +813,8 @@ where
         L: LayoutProps,
     {
         let pos = self.pos().addr().get();
-        let end = unsafe { self.header.as_ref() }.end.addr().get();
+        // see `pos` for why we read this through a `ChunkHeader<()>` reference
+        let end = unsafe { self.header.cast::<ChunkHeader>().as_ref() }.end.addr().get();
 
         let start = if S::UP { pos } else { end };
         let end = if S::UP { end } else { pos };
@@ -836,7 +837,10 @@ where
 
     #[inline(always)]
     pub(crate) fn pos(self) -> NonNull<u8> {
-        unsafe { self.header.as_ref().pos.get() }
+        // `self` may be a dummy chunk, which is a `ChunkHeader<()>` and thus smaller than a `ChunkHeader<A>`
+        // when `A` is not zero sized. `pos` and `end` have the same offset regardless of `A`, so we read
+        // them through a `ChunkHeader<()>` reference which is in bounds for dummy and non-dummy chunks alike.
+        unsafe { self.header.cast::<ChunkHeader>().as_ref().pos.get() }
     }
 
     #[inline(always)]
